@@ -28,7 +28,7 @@ ASSUMPTIONS = [
 ]
 EXHAUSTIVE_NOTE = "the platform grid of the quantifier is enumerated completely in both tiers"
 MIN_EVENTS = {"compatible_tags": 300, "EnvSpec._evaluate_platform": 3000, "oracle-vs-packaging": 300}
-SHARDS = {"quick": 1, "thorough": 1}
+SHARDS = {"quick": 4, "thorough": 8}
 ARCHS = ["x86_64", "aarch64", "armv7l", "ppc64le", "ppc64", "s390x", "riscv64"]
 
 
@@ -196,6 +196,16 @@ def run(ctx):
 
     retained = []
     pts = list(grid())
+    # every shard is a fresh interpreter and walks the (whole) grid in a different order: which platform is evaluated
+    # FIRST in a process must not matter (process-wide tables initialised by the first caller)
+    k = (ctx.shard * 3 + ctx.seed) % len(ARCHS)
+    arch_rank = {a: i for i, a in enumerate(ARCHS[k:] + ARCHS[:k])}
+    fam_order = [["manylinux", "musllinux", "macos", "windows"], ["macos", "manylinux", "windows", "musllinux"],
+                 ["musllinux", "windows", "manylinux", "macos"], ["windows", "macos", "musllinux", "manylinux"]][ctx.shard % 4]
+    descending = ctx.shard % 2 == 1
+    pts.sort(key=lambda p: (fam_order.index(p[0]), arch_rank.get(p[3], 99), -p[1] if descending else p[1],
+                            -p[2] if descending else p[2]))
+    ctx.extra["first_platform_evaluated"] = [pts[0][4]]
     for os_, major, minor, arch, text in pts:
         ctx.cases += 1
         ctx.current_case = {"kind": "platform", "point": [os_, major, minor, arch, text]}
